@@ -342,51 +342,31 @@ def run_phasor(case):
     tt = p.time().sympy
     res['time'] = time_parts(tt, [res['omega']]) if res['omega'] else None
     res['time_str'] = str(tt)
-    # search-oracle part: the phasor is (coefficient of cos(w t)) - j (coefficient of sin(w t)) of the expanded sinusoid
-    if case.get('w'):
-        try:
-            from lcapy import expr as lexpr
-            orig = lexpr(ex).sympy
-            wv = sp.Rational(case['w'])
-            # x(t) = a cos(w t) + b sin(w t):  a = x(0), b = x(pi / (2 w))
-            a_ = sp.simplify(orig.subs(tsym, 0))
-            b_ = sp.simplify(orig.subs(tsym, sp.pi / (2 * wv)))
-            rest = sp.simplify(orig - a_ * sp.cos(wv * tsym) - b_ * sp.sin(wv * tsym))
-            if rest != 0:
-                rv = rest.subs(tsym, sp.Rational(5, 7)).subs({x: sp.Rational(3, 7) for x in rest.free_symbols if x != tsym})
-                if abs(complex(sp.N(rv, 40))) < 1e-25:
-                    rest = sp.Integer(0)
-            if rest == 0 and w == wv:
-                d = sp.simplify(sp.expand_complex(sp.sympify(p.sympy) - (a_ - sp.I * b_)))
-                if d == 0:
-                    res['expected_ok'] = True
-                else:
-                    dv = d.subs({x: sp.Rational(3, 7) for x in d.free_symbols})
-                    res['expected_ok'] = abs(complex(sp.N(dv, 40))) < 1e-25
-                    res['expected'] = str(sp.simplify(a_ - sp.I * b_))
-                    res['got'] = str(p.sympy)
-            elif w != wv:
-                res['expected_ok'] = False
-                res['expected'] = 'omega %s' % wv
-                res['got'] = 'omega %s' % w
-        except Exception as e:
-            res['expected_error'] = type(e).__name__ + ': ' + str(e)[:100]
-    # search-oracle part: sinusoid -> phasor -> time gives back the same sinusoid
+    # search-oracle part (numeric, 40 digits, at rational sample points - used only to SEARCH for a failing input):
+    #  - the phasor is (coefficient of cos(w t)) - j (coefficient of sin(w t)):  a = x(0), b = x(pi / (2 w))
+    #  - sinusoid -> phasor -> time gives back the same sinusoid
+    def mag(e, tv=None):
+        """|e| evaluated with 40 digits (symbols other than t at 3/7, t at tv)"""
+        e = sp.sympify(e)
+        sub = {x: sp.Rational(3, 7) for x in e.free_symbols if x != tsym}
+        if tv is not None:
+            sub[tsym] = tv
+        return abs(sp.N(e.subs(sub), 40, chop=True))
     try:
         from lcapy import expr as lexpr
         orig = lexpr(ex).sympy
-        d = sp.simplify(sp.expand_trig(sp.expand(tt - orig)))
-        if d == 0:
-            res['diff_zero'] = True
-        else:
-            # not simplified to 0: decide at rational sample points of t with high-precision evaluation
-            free = [x for x in d.free_symbols if x != tsym]
-            vals = []
-            for tv in (sp.Rational(1, 3), sp.Rational(7, 5), sp.Rational(-2, 7)):
-                dv = d.subs(tsym, tv).subs({x: sp.Rational(3, 7) for x in free})
-                vals.append(abs(complex(sp.N(dv, 40))))
-            res['diff_zero'] = max(vals) < 1e-25
-            res['diff'] = str(d)
+        pts = (sp.Rational(1, 3), sp.Rational(7, 5), sp.Rational(-2, 7))
+        tol = sp.Float('1e-25')
+        res['diff_zero'] = bool(max(mag(tt - orig, tv) for tv in pts) < tol)
+        if case.get('w'):
+            wv = sp.Rational(case['w'])
+            a_ = orig.subs(tsym, 0)
+            b_ = orig.subs(tsym, sp.pi / (2 * wv))
+            if bool(max(mag(orig - a_ * sp.cos(wv * tsym) - b_ * sp.sin(wv * tsym), tv) for tv in pts) < tol):
+                res['expected_ok'] = bool(w == wv) and bool(mag(sp.sympify(p.sympy) - (a_ - sp.I * b_)) < tol)
+                if not res['expected_ok']:
+                    res['expected'] = 'omega %s, phasor %s' % (wv, sp.simplify(a_ - sp.I * b_))
+                    res['got'] = 'omega %s, phasor %s' % (w, p.sympy)
     except Exception as e:
         res['diff_error'] = type(e).__name__ + ': ' + str(e)[:100]
     return res
@@ -415,8 +395,8 @@ def run_ode(case):
     if r == 0:
         out['residual_zero'] = True
     else:
-        vals = [abs(complex(sp.N(r.subs(t, tv), 40))) for tv in (sp.Rational(1, 3), sp.Rational(7, 5), sp.Rational(-2, 7))]
-        out['residual_zero'] = max(vals) < 1e-25
+        vals = [abs(sp.N(r.subs(t, tv), 40, chop=True)) for tv in (sp.Rational(1, 3), sp.Rational(7, 5), sp.Rational(-2, 7))]
+        out['residual_zero'] = bool(max(vals) < sp.Float('1e-25'))
     return out
 
 
